@@ -368,6 +368,9 @@ func (pp *PairPos) Sanitize() error {
 }
 
 func (mp *MarkBasePos) Sanitize() error {
+	if mp.markCoverage == nil || mp.BaseCoverage == nil {
+		return errors.New("GPOS: missing MarkBasePos coverage")
+	}
 	if exp, got := mp.markCoverage.Len(), len(mp.MarkArray.MarkRecords); exp != got {
 		return fmt.Errorf("GPOS: invalid MarkBasePos marks count (%d != %d)", exp, got)
 	}
